@@ -194,7 +194,13 @@ pub fn check_contract<S: RaftStorage<TypeConfig>>(s: &mut S, m: &Model, rep: &mu
     if v != m.vote {
         rep.violate("storage-contract-vote", store, format!("after {}: read_vote = {:?}, expected {:?}", what, v, m.vote));
     }
-    let (ap, _mem) = bo(s.last_applied_state()).expect("last_applied_state");
+    let (ap, mem) = bo(s.last_applied_state()).expect("last_applied_state");
+    // the membership in effect is the one of the last membership entry at or below the applied position
+    let want_mem: Option<(LogId<NodeId>, String)> = m.applied.and_then(|a| m.history.range(..=a.index).rev().find_map(|(_, e)| match &e.payload { EntryPayload::Membership(mm) => Some((e.log_id, format!("{:?}", mm))), _ => None }));
+    let got_mem: Option<(LogId<NodeId>, String)> = mem.log_id().map(|id| (id, format!("{:?}", mem.membership())));
+    if got_mem != want_mem {
+        rep.violate("storage-contract-last-membership", store, format!("after {}: last_applied_state reports membership {:?}, but the last membership entry at or below the applied position {:?} is {:?}", what, got_mem, m.applied.map(|a| a.index), want_mem));
+    }
     if ap != m.applied {
         rep.violate("storage-contract-last-applied", store, format!("after {}: last_applied = {:?}, expected {:?}", what, ap, m.applied));
     }
